@@ -2,7 +2,7 @@ import hashlib as _hashlib
 _c29_base = _hashlib.sha256(open(_os.path.join(_os.path.dirname(_os.path.abspath(_f)), 'c27_llbase.hpp'), 'rb').read()).hexdigest()[:16]
 
 target('c29_lifecycle', 'engines/ll/c29_lifecycle.cpp',
-       quick=dict(cases=50000, size=50), thorough=dict(cases=1000000, size=80),
+       quick=dict(cases=400000, size=50), thorough=dict(cases=1000000, size=80),
        extra_src=LL_SRC, cxxflags=['-DC27_LLBASE_SHA=0x' + _c29_base],
        # avoid=F-21c: no traffic but empty PDUs while an instant is pending, instant carrying PDUs are sent with empty queues
        #              (deferred PDU overwritten / instant == current event hangs on a tree without sketches 13 and 25);
